@@ -9,6 +9,15 @@ T_TOOLS = 'T10 Verus 0.2026.09.13, Z3, rustc; machine integers are checked (not 
 T_RPO = 'T4 RPO hash (miden-crypto hash_elements / merge_in_domain) uninterpreted; collision resistance NOT assumed'
 
 PROPS = {
+    'C06': {
+        'level': 'proof',
+        'units': ['executor'],
+        'kani': [],
+        'trusted_base': [T_FELT, T_TOOLS, 'A-decoder: Decoder method contracts (one row per call, block-stack push/pop) assumed in unit executor', 'hub control-flow rules spec/control_sem.rs are the semantics definition (axioms)'],
+        'not_decided': ['text->AST parser', 'AST->MAST lowering (compile_body, combine_blocks): closures/iterators outside Verus reach'],
+        'sample_obligations': ['C06/executor/Process::execute_split_block#ensures.0 : Ok ==> exec_rel(Split, before, after) (only rule_split_true/false can derive it)',
+                               'C06/executor/Process::end_loop_block#ensures.0 : pop_stack && top != 0 ==> Err(NotBinaryValue(top))'],
+    },
     'C05': {
         'level': 'proof',
         'units': ['stack', 'ops_field', 'ops_stack', 'ops_u32', 'ops_sys'],
